@@ -8,7 +8,7 @@ ID = 'C05'
 LEVEL = 'exploration'
 RULE = ('every key list of length 1..L (quick 2, thorough 3) over {name, ext, path, size, hardlinks, uid, modified, '
         'length(name), size * 2, size + hardlinks, size - 50, day(modified), year(modified), 1000 - size (positional)} plus lists that repeat a key x every direction vector x {explicit asc, omitted} x {explicit, '
-        'positional} spelling x key selected or not x with/without WHERE x readdir arrival order {sorted, reversed} '
+        'positional, with decoy columns that mention the key columns} spelling x key selected or not x with/without WHERE x readdir arrival order {sorted, reversed} '
         '(shim); non-trivial = key vectors are not all equal and the ordered output differs from the unordered one')
 ASSUMPTIONS = ['key values come from lstat of the generated tree, not from the output',
                'string keys compare bytewise (UTF-8), numeric keys by value, dates chronologically',
@@ -39,19 +39,23 @@ def groups(tier, seed):
         if True:
             cases = []
             for dirs in itertools.product([True, False], repeat=n):
-                for spell in ('explicit', 'asc', 'positional'):
+                for spell in ('explicit', 'asc', 'positional', 'decoy'):
                     if spell != 'positional' and any(k in om.POSITIONAL_ONLY for k in kl):
                         continue
                     for where in (False, True):
                         for rd in ('sorted', 'rev'):
-                            if n == 3 and (spell == 'asc' or (where and rd == 'rev')):
+                            if n == 3 and (spell in ('asc', 'decoy') or (where and rd == 'rev')):
+                                continue
+                            if spell == 'decoy' and (where or n > 2):
                                 continue
                             cases.append({'dirs': list(dirs), 'spell': spell, 'where': where, 'rd': rd})
+                            if 'modified' in kl and spell == 'explicit' and not where and n <= 2:
+                                cases.append({'dirs': list(dirs), 'spell': spell, 'where': where, 'rd': rd, 'tz': 'Europe/Berlin'})
             yield {'keys': list(kl), 'cases': cases}
 
 
 def single(case):
-    return {'keys': case['keys'], 'cases': [{k: case[k] for k in ('dirs', 'spell', 'where', 'rd')}]}
+    return {'keys': case['keys'], 'cases': [{k: case[k] for k in ('dirs', 'spell', 'where', 'rd', 'tz') if k in case}]}
 
 
 def eval_group(env, group, tier):
@@ -69,7 +73,11 @@ def eval_group(env, group, tier):
         for c in group['cases']:
             w = ' where size gt 4' if c['where'] else ''
             universe = sorted(p for p, e in ents.items() if not c['where'] or e['size'] > 4)
-            if c['spell'] == 'positional':
+            if c['spell'] == 'decoy':
+                # other columns that mention the key columns (negated, scaled, wrapped) must not influence the order
+                sel = ['path', '-size', '-hardlinks', 'size * 3', 'upper(name)', 'length(name) + 1', '-length(name)', 'lower(ext)']
+                ob = ', '.join(k + ('' if d else ' desc') for k, d in zip(keys, c['dirs']))
+            elif c['spell'] == 'positional':
                 sel = ['path'] + keys
                 ob = ', '.join('%d%s' % (i + 2, '' if d else ' desc') for i, d in enumerate(c['dirs']))
             else:
@@ -77,7 +85,10 @@ def eval_group(env, group, tier):
                 asc = ' asc' if c['spell'] == 'asc' else ''
                 ob = ', '.join(k + (asc if d else ' desc') for k, d in zip(keys, c['dirs']))
             q = ', '.join(sel) + ' from .' + w + ' order by ' + ob + ' into list'
-            o = env.run([q], cwd=root, preload=True, env={'FSX_READDIR': c['rd']})
+            envx = {'FSX_READDIR': c['rd']}
+            if c.get('tz'):
+                envx['TZ'] = c['tz']
+            o = env.run([q], cwd=root, preload=True, env=envx)
             case = dict(c, keys=keys, query=q)
             res = {'case': case, 'layer': 'keys=%d' % len(keys)}
             rows = o.rows(len(sel))
@@ -86,7 +97,17 @@ def eval_group(env, group, tier):
                 outs.append(res)
                 continue
             paths = [r if len(sel) == 1 else r[0] for r in rows]
-            vecs = [om.keyvec(ents[p], keys) for p in paths if p in ents]
+            if c.get('tz'):
+                pass
+            if c.get('tz'):
+                # dates are compared as local wall-clock time: two instants of a repeated DST hour are a tie
+                import datetime as _dt
+                from zoneinfo import ZoneInfo
+                z = ZoneInfo(c['tz'])
+                loc = lambda e: dict(e, mtime=int(_dt.datetime.fromtimestamp(e['mtime'], z).replace(tzinfo=_dt.timezone.utc).timestamp()))
+                vecs = [om.keyvec(loc(ents[p]), keys) for p in paths if p in ents]
+            else:
+                vecs = [om.keyvec(ents[p], keys) for p in paths if p in ents]
             res['nt'] = len(set(vecs)) > 1
             res['trans'] = max(1, len(paths) - 1)
             if sorted(paths) != universe:
